@@ -8,8 +8,12 @@
 (*   pool.py      _ReconnectionHandler.start / run (consumes one delay before  *)
 (*                each attempt; StopIteration = schedule exhausted = give up)  *)
 (*                                                                            *)
-(* A schedule is created from (policy, base, max, attempts) and then only      *)
-(* produces items: Emit (one delay) or Stop (the iterator is exhausted).       *)
+(* A policy object is created from (policy, base, max, attempts).  Every call  *)
+(* of new_schedule() (Sched: a host went down - again, or another host at the  *)
+(* same time) hands out a NEW schedule with its own position; schedules of one *)
+(* policy object are consumed interleaved and must not influence each other:   *)
+(* each of them, on its own, produces items - Emit(s) (one delay) or Stop(s)   *)
+(* (the iterator is exhausted) - as if it were the only one.                   *)
 (*                                                                            *)
 (* Numbers.  The specification is unit free.  `base` and `max` are naturals   *)
 (* in some unit u (for the constant policy base = max = the fixed delay);      *)
@@ -24,23 +28,27 @@
 (* k = min(i, cap) where cap is the first index with base * 2^cap >= max; k    *)
 (* stops growing there, so base * 2^k < 2 * max always and 32-bit integers     *)
 (* suffice for any number of items (IndexBounded, CappedIsExact).              *)
-EXTENDS Integers, TLC
+EXTENDS Integers, Sequences, TLC
 
 CONSTANTS Delays,          \* model checking: values for base / max / constant delay (in u)
           AttemptChoices,  \* model checking: finite values for max_attempts (None is always added)
-          Horizon          \* model checking: bound on emitted for schedules that never end
+          Horizon,         \* model checking: bound on emitted for schedules that never end
+          MaxSched,        \* model checking: schedules taken from one policy object
+          MultiHorizon     \* model checking: bound on emitted once a second schedule exists
 
 None == -1
 
 VARIABLES policy,    \* "constant" | "exponential"
           base, max, \* parameters in u  (constant: base = max = delay)
           attempts,  \* max_attempts, None = -1
-          emitted,   \* number of delays produced so far (= index i of the next one)
-          k,         \* capped doubling index: min(emitted, cap)
-          stopped,   \* the iterator raised StopIteration
-          act        \* last action, with the emitted delay
+          ns,        \* number of schedules handed out by the policy object so far
+          emitted,   \* per schedule: number of delays produced so far (= index i of the next one)
+          k,         \* per schedule: capped doubling index: min(emitted, cap)
+          stopped,   \* per schedule: the iterator raised StopIteration
+          act        \* last action, with the schedule and the emitted delay
 
-vars == <<policy, base, max, attempts, emitted, k, stopped, act>>
+vars == <<policy, base, max, attempts, ns, emitted, k, stopped, act>>
+Scheds == 1..ns
 
 Min(a, b) == IF a < b THEN a ELSE b
 Max2(a, b) == IF a > b THEN a ELSE b
@@ -54,13 +62,15 @@ Raw(kk) == Min(base * Pow2(kk), max)
 Capped(kk) == base = 0 \/ base * Pow2(kk) >= max
 
 \* band of admissible delays for the next item, in u/100
-Lo == IF policy = "constant" THEN 100 * base ELSE Max2(100 * base, 85 * Raw(k))
-Hi == IF policy = "constant" THEN 100 * base ELSE Min(100 * max, 115 * Raw(k))
+Lo(s) == IF policy = "constant" THEN 100 * base ELSE Max2(100 * base, 85 * Raw(k[s]))
+Hi(s) == IF policy = "constant" THEN 100 * base ELSE Min(100 * max, 115 * Raw(k[s]))
+
+Act(name, s, dlo, dhi, i) == [name |-> name, s |-> s, dlo |-> dlo, dhi |-> dhi, i |-> i]
 
 InitWith(p, b, m, a) ==
     /\ policy = p /\ base = b /\ max = m /\ attempts = a
-    /\ emitted = 0 /\ k = 0 /\ stopped = FALSE
-    /\ act = [name |-> "New", dlo |-> 0, dhi |-> 0, i |-> 0]
+    /\ ns = 0 /\ emitted = <<>> /\ k = <<>> /\ stopped = <<>>
+    /\ act = Act("New", 0, 0, 0, 0)
 
 Init ==
     \E p \in {"constant", "exponential"}, b \in Delays, m \in Delays, a \in AttemptChoices \cup {None} :
@@ -68,54 +78,71 @@ Init ==
         /\ p = "constant" => b = m
         /\ InitWith(p, b, m, a)
 
+(* policy.new_schedule(): a fresh schedule, at its beginning, whatever the others did *)
+Sched ==
+    /\ ns' = ns + 1
+    /\ emitted' = Append(emitted, 0) /\ k' = Append(k, 0) /\ stopped' = Append(stopped, FALSE)
+    /\ act' = Act("Sched", ns + 1, 0, 0, 0)
+    /\ UNCHANGED <<policy, base, max, attempts>>
+
 (* next(schedule) returns a delay.  The delay is the rational enclosed by dlo..dhi. *)
 (* Every item counts towards the attempt limit, whichever branch of the generator   *)
 (* produced it (the regular one, the OverflowError handler at the first index whose *)
 (* 2^i no longer fits a float, or the "overflowed" shortcut after it): a limit that *)
 (* lies beyond that index still yields exactly `attempts` items.                    *)
-Emit(dlo, dhi) ==
-    /\ ~stopped
-    /\ attempts = None \/ emitted < attempts
+Emit(s, dlo, dhi) ==
+    /\ s \in Scheds
+    /\ ~stopped[s]
+    /\ attempts = None \/ emitted[s] < attempts
     /\ dhi - dlo \in {0, 1}
-    /\ Lo <= dlo /\ dhi <= Hi
-    /\ emitted' = emitted + 1
-    /\ k' = IF policy = "exponential" /\ ~Capped(k) THEN k + 1 ELSE k
-    /\ act' = [name |-> "Emit", dlo |-> dlo, dhi |-> dhi, i |-> emitted]
-    /\ UNCHANGED <<policy, base, max, attempts, stopped>>
+    /\ Lo(s) <= dlo /\ dhi <= Hi(s)
+    /\ emitted' = [emitted EXCEPT ![s] = @ + 1]
+    /\ k' = IF policy = "exponential" /\ ~Capped(k[s]) THEN [k EXCEPT ![s] = @ + 1] ELSE k
+    /\ act' = Act("Emit", s, dlo, dhi, emitted[s])
+    /\ UNCHANGED <<policy, base, max, attempts, ns, stopped>>
 
 (* next(schedule) raises StopIteration: exactly when the attempt limit is used up;  *)
 (* zero means immediately, None means never.                                        *)
-Stop ==
-    /\ ~stopped
-    /\ attempts # None /\ emitted = attempts
-    /\ stopped' = TRUE
-    /\ act' = [name |-> "Stop", dlo |-> 0, dhi |-> 0, i |-> emitted]
-    /\ UNCHANGED <<policy, base, max, attempts, emitted, k>>
+Stop(s) ==
+    /\ s \in Scheds
+    /\ ~stopped[s]
+    /\ attempts # None /\ emitted[s] = attempts
+    /\ stopped' = [stopped EXCEPT ![s] = TRUE]
+    /\ act' = Act("Stop", s, 0, 0, emitted[s])
+    /\ UNCHANGED <<policy, base, max, attempts, ns, emitted, k>>
 
 \* model checking explores the end points and the middle of every band
-Choices == {Lo, Hi, (Lo + Hi) \div 2}
+Choices(s) == {Lo(s), Hi(s), (Lo(s) + Hi(s)) \div 2}
 
-EmitAny == \E d \in Choices : Emit(d, d)
+SchedMC == ns < MaxSched /\ Sched
+EmitAny == \E s \in Scheds : \E d \in Choices(s) : Emit(s, d, d)
+StopAny == \E s \in Scheds : Stop(s)
 
-Next == EmitAny \/ Stop
+Next == SchedMC \/ EmitAny \/ StopAny
 
 Spec == Init /\ [][Next]_vars
 
-Bounded == emitted <= Horizon
+\* one schedule is followed up to Horizon items, several interleaved ones up to MultiHorizon each
+Bounded == \A s \in Scheds : emitted[s] <= (IF ns = 1 THEN Horizon ELSE MultiHorizon)
 
 -----------------------------------------------------------------------------
 TypeOK ==
     /\ policy \in {"constant", "exponential"}
     /\ base \in Nat /\ max \in Nat /\ base <= max
     /\ attempts \in Nat \cup {None}
-    /\ emitted \in Nat /\ k \in Nat /\ stopped \in BOOLEAN
+    /\ ns \in Nat /\ DOMAIN emitted = Scheds /\ DOMAIN k = Scheds /\ DOMAIN stopped = Scheds
 
-\* a limited schedule yields exactly `attempts` delays; an unlimited one never ends
-Length ==
-    /\ attempts # None => emitted <= attempts
-    /\ stopped => attempts # None /\ emitted = attempts
-NeverEndsWithoutLimit == attempts = None => ~stopped
-NotStuck == stopped \/ ENABLED Emit(Lo, Lo) \/ ENABLED Stop
+\* a limited schedule yields exactly `attempts` delays - every schedule of the policy object on its own, however many
+\* others exist and whatever they have produced; an unlimited one never ends
+Length == \A s \in Scheds :
+    /\ attempts # None => emitted[s] <= attempts
+    /\ stopped[s] => attempts # None /\ emitted[s] = attempts
+NeverEndsWithoutLimit == attempts = None => \A s \in Scheds : ~stopped[s]
+NotStuck == \A s \in Scheds : stopped[s] \/ ENABLED Emit(s, Lo(s), Lo(s)) \/ ENABLED Stop(s)
+\* independence: what a schedule may do next depends on its own position only
+Independent == \A s \in Scheds :
+    /\ (attempts # None /\ emitted[s] < attempts) => ENABLED Emit(s, Lo(s), Lo(s))
+    /\ (attempts # None /\ emitted[s] = attempts /\ ~stopped[s]) => ENABLED Stop(s)
 
 \* constant: the fixed delay; exponential: between base and max
 DelayBounds ==
@@ -123,30 +150,33 @@ DelayBounds ==
         IF policy = "constant" THEN act.dlo = 100 * base /\ act.dhi = 100 * base
         ELSE 100 * base <= act.dlo /\ act.dhi <= 100 * max
 
-BandNonEmpty == Lo <= Hi
+BandNonEmpty == \A s \in Scheds : Lo(s) <= Hi(s)
 
 \* the index that is really used never runs past the cap: no overflow however long the schedule
-IndexBounded ==
-    /\ k <= emitted
-    /\ k = 0 \/ base * Pow2(k - 1) < max
-    /\ policy = "constant" => k = 0
+IndexBounded == \A s \in Scheds :
+    /\ k[s] <= emitted[s]
+    /\ k[s] = 0 \/ base * Pow2(k[s] - 1) < max
+    /\ policy = "constant" => k[s] = 0
 
 \* (model checking only: small parameters) the capped index gives the same raw value as the true one,
 \* and the delay follows the doubling curve within +/-15 % unless clamped
 SafeIdx == 20
 TrueRaw(i) == Min(base * Pow2(i), max)
-CappedIsExact == (policy = "exponential" /\ emitted <= SafeIdx) => Raw(k) = TrueRaw(emitted)
+CappedIsExact == \A s \in Scheds : (policy = "exponential" /\ emitted[s] <= SafeIdx) => Raw(k[s]) = TrueRaw(emitted[s])
 FollowsCurve ==
     (act.name = "Emit" /\ policy = "exponential" /\ act.i <= SafeIdx) =>
         /\ act.dlo >= Max2(100 * base, 85 * TrueRaw(act.i))
         /\ act.dhi <= Min(100 * max, 115 * TrueRaw(act.i))
 
 \* vacuity witnesses (each must be violated = reachable)
-Witness_Saturated == ~(policy = "exponential" /\ k < emitted /\ base > 0)
-Witness_ZeroAttempts == ~(stopped /\ emitted = 0)
-Witness_ClampMax == ~(policy = "exponential" /\ 115 * Raw(k) > 100 * max)
-Witness_ClampBase == ~(policy = "exponential" /\ 85 * Raw(k) < 100 * base /\ base > 0)
-Witness_LongUnlimited == ~(attempts = None /\ emitted = Horizon)
+Witness_Saturated == ~(policy = "exponential" /\ base > 0 /\ \E s \in Scheds : k[s] < emitted[s])
+Witness_ZeroAttempts == ~(\E s \in Scheds : stopped[s] /\ emitted[s] = 0)
+Witness_ClampMax == ~(policy = "exponential" /\ \E s \in Scheds : 115 * Raw(k[s]) > 100 * max)
+Witness_ClampBase == ~(policy = "exponential" /\ base > 0 /\ \E s \in Scheds : 85 * Raw(k[s]) < 100 * base)
+Witness_LongUnlimited == ~(attempts = None /\ \E s \in Scheds : emitted[s] = Horizon)
+\* a later schedule completes although an earlier one of the same policy object was (partly) consumed before
+Witness_SecondScheduleComplete == ~(ns >= 2 /\ attempts # None /\ attempts >= 2 /\ stopped[2] /\ emitted[1] >= 1)
+Witness_TwoSchedulesInterleaved == ~(ns >= 2 /\ act.name = "Emit" /\ act.s = 1 /\ emitted[2] >= 1 /\ ~stopped[2])
 \* the same witnesses as stuttering probe actions: with NEXT NextW and -coverage, a non-zero count for W_x
 \* shows x is reachable without a separate TLC run (NextW is used for nothing else)
 W_Saturated == ~Witness_Saturated /\ UNCHANGED vars
@@ -154,5 +184,8 @@ W_ZeroAttempts == ~Witness_ZeroAttempts /\ UNCHANGED vars
 W_ClampMax == ~Witness_ClampMax /\ UNCHANGED vars
 W_ClampBase == ~Witness_ClampBase /\ UNCHANGED vars
 W_LongUnlimited == ~Witness_LongUnlimited /\ UNCHANGED vars
+W_SecondScheduleComplete == ~Witness_SecondScheduleComplete /\ UNCHANGED vars
+W_TwoSchedulesInterleaved == ~Witness_TwoSchedulesInterleaved /\ UNCHANGED vars
 NextW == Next \/ W_Saturated \/ W_ZeroAttempts \/ W_ClampMax \/ W_ClampBase \/ W_LongUnlimited
+              \/ W_SecondScheduleComplete \/ W_TwoSchedulesInterleaved
 =============================================================================
